@@ -39,7 +39,7 @@ def design(ctx, thorough):
 
 def sig_features(g, extra=()):
     f = kc.features(g["k"]) - {"pointer-arg", "scalar-arg"}
-    core = [x for x in ("header-stride", "loop-header", "empty-range", "atomic-alias", "atomic", "shared-across-barrier", "shared", "exclusive", "tile", "dim", "nobarrier", "runtime-bounds",
+    core = [x for x in ("header-stride", "loop-header", "empty-range", "atomic-block", "atomic-alias", "atomic", "shared-across-barrier", "shared", "exclusive", "tile", "dim", "nobarrier", "runtime-bounds",
                         "max_inner_dims", "simd_length", "explicit-barrier", "restrict", "helper-function", "for", "if",
                         "local-decl", "nested-inner", "nested-outer", "sibling-inner", "sibling-outer", "between-decl") if x in f]
     return ",".join(list(extra) + core[:4])
@@ -117,6 +117,9 @@ def run(ctx):
     # 2. kernels + argument values + predicted outputs from the spec's generator
     num = int(os.environ.get("C20_NUM", 600 if thorough else 100))
     gen = kc.generate(ctx, "mc/OklKernel_gen.cfg", num)
+    # general @atomic blocks are rejected by cuda/hip ("Unable to transform general @atomic code"), taken apart by dpcpp
+    # and dropped by opencl/metal: class atomblock is run by C21 (Serial/OpenMP) only
+    gen = [g for g in gen if g["cls"] != "atomblock"]
     # ... and the header class, enumerated completely: every (comparison x update form) on both loop levels
     gen += kc.generate_all(ctx, "mc/OklKernel_gen_headers.cfg" if thorough else "mc/OklKernel_gen_headers_quick.cfg")
     kc.lap(ctx, t0, "generated %d kernels" % len(gen))
